@@ -2,6 +2,7 @@ package fsm
 
 import (
 	"sort"
+	"strings"
 
 	"fmt"
 
@@ -130,7 +131,7 @@ func (s *State) has(tr *Transition) bool {
 func (s *State) Parse(args []string) error {
 	verifhook.Point("fsm.Parse")
 	pc := matcher.NewParseContext()
-	ok := s.apply(args, pc)
+	ok := s.apply(args, pc, map[visit]bool{})
 	if !ok {
 		return fmt.Errorf("incorrect usage")
 	}
@@ -162,11 +163,27 @@ func fillContainers(containers map[*container.Container][]string) error {
 	return nil
 }
 
-func (s *State) apply(args []string, pc matcher.ParseContext) bool {
+// visit identifies a configuration of the matcher: what happens from it does not depend on how it was reached
+type visit struct {
+	state         *State
+	remaining     string
+	rejectOptions bool
+}
+
+func (s *State) apply(args []string, pc matcher.ParseContext, path map[visit]bool) bool {
 	verifhook.Point("fsm.apply")
 	if s.Terminal && len(args) == 0 {
 		return true
 	}
+
+	// some transitions match without consuming anything (an option set from the environment, a -- in the spec):
+	// coming back to a configuration which is already on the current path can only loop, never reach a new outcome
+	here := visit{s, strings.Join(args, "\x00"), pc.RejectOptions}
+	if path[here] {
+		return false
+	}
+	path[here] = true
+	defer delete(path, here)
 
 	if len(args) > 0 {
 		arg := args[0]
@@ -193,7 +210,7 @@ func (s *State) apply(args []string, pc matcher.ParseContext) bool {
 	}
 
 	for _, m := range matches {
-		if ok := m.tr.Next.apply(m.rem, m.pc); ok {
+		if ok := m.tr.Next.apply(m.rem, m.pc, path); ok {
 			pc.Merge(m.pc)
 			return true
 		}
